@@ -36,6 +36,9 @@ pub enum ClientOp {
     Noise(Noise),
     /// wait for the result of the nth program started with Run { wait: false }
     WaitRun { nth: usize },
+    /// the user edits a module of the session's package and reloads (`:r` in the REPL): the module's
+    /// source is replaced and `Repl::reload_modules` gets a resolver over the edited package
+    Reload { session: usize, path: Vec<String>, src: String },
 }
 
 #[derive(Clone, Debug, PartialEq, Serialize, Deserialize)]
@@ -206,6 +209,15 @@ impl Client {
                     }
                     ClientOp::Noise(n) => {
                         self.noise(world, &n);
+                        self.finish(Out::Skipped, steps);
+                        true
+                    }
+                    ClientOp::Reload { session, path, src } => {
+                        self.modules.insert(path, src);
+                        if let Some(Some(repl)) = self.sessions.get_mut(session) {
+                            let resolver: Box<dyn ModuleResolver> = Box::new(PackageResolver::memory(self.modules.clone()));
+                            repl.reload_modules(resolver);
+                        }
                         self.finish(Out::Skipped, steps);
                         true
                     }
